@@ -24,6 +24,7 @@ Theorem C08_centroid_scales :
   forall s i TT, s <> 0%R -> cone0 Rops TT <> 0%R ->
     spec_centroid Rops i (map (tscale s) TT) = (s * spec_centroid Rops i TT)%R.
 Proof. exact centroid_scale. Qed.
+Print Assumptions C08_centroid_scales.
 Theorem C08_inertia_homogeneous :
   forall s i j TT, spec_inertia Rops i j (map (tscale s) TT) = (s ^ 5 * spec_inertia Rops i j TT)%R.
 Proof. exact inertia_scale. Qed.
@@ -35,18 +36,22 @@ Theorem C08_setter_hits_target :
   forall (cur target s : R) (d : nat) (m' : R),
     cur <> 0%R -> (s ^ d = target / cur)%R -> (m' = s ^ d * cur)%R -> m' = target.
 Proof. exact setter_hits_target. Qed.
+Print Assumptions C08_setter_hits_target.
 
 (* dimensionless descriptors are preserved by the similarity *)
 Theorem C08_iq_invariant :
   forall V S s : R, s <> 0%R -> S <> 0%R ->
     (PI * 36 * (s ^ 3 * V) ^ 2 / (s ^ 2 * S) ^ 3 = PI * 36 * V ^ 2 / S ^ 3)%R.
 Proof. exact iq_scale_invariant. Qed.
+Print Assumptions C08_iq_invariant.
 
 (* translation (centroid setter) leaves the volume unchanged and moves the centroid with the shape *)
 Theorem C08_translation_volume :
   forall d TT, closed TT -> cone0 Rops (map (tshift Rops d) TT) = cone0 Rops TT.
 Proof. exact cone0_shift. Qed.
+Print Assumptions C08_translation_volume.
 Theorem C08_translation_first_moment :
   forall d i TT, closed TT ->
     cone1 Rops i (map (tshift Rops d) TT) = (cone1 Rops i TT - vcomp i d * cone0 Rops TT)%R.
 Proof. exact cone1_shift. Qed.
+Print Assumptions C08_translation_first_moment.
